@@ -182,3 +182,99 @@ Qed.
 Example cltv_rule_examples :
   cltv_okb 40 1050 1000 = true /\ cltv_okb 40 1030 1000 = false /\ cltv_okb 0 1000 1000 = false.
 Proof. vm_compute. repeat split. Qed.
+
+(** * Every booking history: the stored bounds are the extrema of what was booked
+    A record's life is a sequence of RoutedPayment::apply calls (one per accepted commitment update
+    that mentions its hash).  [book] folds the translated [apply] over such a sequence. *)
+Record booking := mkB { b_ch : N; b_in : N; b_out : N; b_ic : option N; b_oc : option N }.
+
+Fixpoint book (prof : profile) (p : RoutedPayment) (l : list booking) : trap RoutedPayment :=
+  match l with
+  | [] => Val p
+  | b :: r => p1 <- gen_RoutedPayment_apply prof p (b_ch b) (b_in b) (b_out b) (b_ic b) (b_oc b) ;; book prof p1 r
+  end.
+
+Definition opt_all_ge (bound : option N) (xs : list N) : Prop :=
+  match bound with Some m => Forall (fun x => m <= x) xs | None => xs = [] end.
+Definition opt_all_le (bound : option N) (xs : list N) : Prop :=
+  match bound with Some m => Forall (fun x => x <= m) xs | None => xs = [] end.
+
+Fixpoint somes (l : list (option N)) : list N :=
+  match l with [] => [] | Some x :: r => x :: somes r | None :: r => somes r end.
+
+Lemma apply_exact prof p ch i o ic oc :
+  exists p', gen_RoutedPayment_apply prof p ch i o ic oc = Val p' /\
+    RoutedPayment_incoming_cltv_min p' =
+      match ic with
+      | None => RoutedPayment_incoming_cltv_min p
+      | Some a => Some (match RoutedPayment_incoming_cltv_min p with Some e => N.min e a | None => a end)
+      end /\
+    RoutedPayment_outgoing_cltv_max p' =
+      match oc with
+      | None => RoutedPayment_outgoing_cltv_max p
+      | Some a => Some (match RoutedPayment_outgoing_cltv_max p with Some e => N.max e a | None => a end)
+      end.
+Proof.
+  unfold gen_RoutedPayment_apply. cbv beta zeta.
+  destruct ic as [a|], oc as [b|]; cbn [bindT]; eexists; (split; [reflexivity|]); cbn; split; reflexivity.
+Qed.
+
+(** a fresh record (RoutedPayment::new: no bounds) after ANY sequence of bookings: it never panics,
+    incoming_cltv_min is a lower bound of every incoming expiry booked and is one of them,
+    outgoing_cltv_max an upper bound of every outgoing expiry booked and one of them *)
+Theorem book_bounds_are_extrema prof :
+  forall (l : list booking) (p : RoutedPayment) (seen_in seen_out : list N),
+    opt_all_ge (RoutedPayment_incoming_cltv_min p) seen_in ->
+    opt_all_le (RoutedPayment_outgoing_cltv_max p) seen_out ->
+    (forall m, RoutedPayment_incoming_cltv_min p = Some m -> In m seen_in) ->
+    (forall m, RoutedPayment_outgoing_cltv_max p = Some m -> In m seen_out) ->
+    exists p', book prof p l = Val p' /\
+      let all_in := seen_in ++ somes (map b_ic l) in
+      let all_out := seen_out ++ somes (map b_oc l) in
+      opt_all_ge (RoutedPayment_incoming_cltv_min p') all_in /\
+      opt_all_le (RoutedPayment_outgoing_cltv_max p') all_out /\
+      (forall m, RoutedPayment_incoming_cltv_min p' = Some m -> In m all_in) /\
+      (forall m, RoutedPayment_outgoing_cltv_max p' = Some m -> In m all_out).
+Proof.
+  induction l as [|b r IH]; intros p si so Hi Ho Mi Mo.
+  - exists p. cbn [book map somes]. rewrite !app_nil_r. repeat split; assumption.
+  - cbn [book].
+    destruct (apply_exact prof p (b_ch b) (b_in b) (b_out b) (b_ic b) (b_oc b)) as [p1 [He [H1 H2]]].
+    rewrite He. cbn [bindT].
+    set (si1 := si ++ somes [b_ic b]). set (so1 := so ++ somes [b_oc b]).
+    assert (A1 : opt_all_ge (RoutedPayment_incoming_cltv_min p1) si1 /\
+                 (forall m, RoutedPayment_incoming_cltv_min p1 = Some m -> In m si1)).
+    { rewrite H1. unfold si1. destruct (b_ic b) as [a|]; cbn [somes].
+      - unfold opt_all_ge in *. destruct (RoutedPayment_incoming_cltv_min p) as [e|].
+        + split.
+          * apply Forall_app. split.
+            -- eapply Forall_impl; [|exact Hi]. cbv beta. intros x Hx. lia.
+            -- constructor; [lia|constructor].
+          * intros m Hm. injection Hm as <-. apply in_or_app.
+            destruct (N.min_spec e a) as [[_ ->]|[_ ->]]; [left; apply Mi; reflexivity | right; left; reflexivity].
+        + subst si. split.
+          * constructor; [lia|constructor].
+          * intros m Hm. injection Hm as <-. left. reflexivity.
+      - rewrite app_nil_r. split; assumption. }
+    assert (A2 : opt_all_le (RoutedPayment_outgoing_cltv_max p1) so1 /\
+                 (forall m, RoutedPayment_outgoing_cltv_max p1 = Some m -> In m so1)).
+    { rewrite H2. unfold so1. destruct (b_oc b) as [a|]; cbn [somes].
+      - unfold opt_all_le in *. destruct (RoutedPayment_outgoing_cltv_max p) as [e|].
+        + split.
+          * apply Forall_app. split.
+            -- eapply Forall_impl; [|exact Ho]. cbv beta. intros x Hx. lia.
+            -- constructor; [lia|constructor].
+          * intros m Hm. injection Hm as <-. apply in_or_app.
+            destruct (N.max_spec e a) as [[_ ->]|[_ ->]]; [right; left; reflexivity | left; apply Mo; reflexivity].
+        + subst so. split.
+          * constructor; [lia|constructor].
+          * intros m Hm. injection Hm as <-. left. reflexivity.
+      - rewrite app_nil_r. split; assumption. }
+    destruct A1 as [A1 B1]. destruct A2 as [A2 B2].
+    destruct (IH p1 si1 so1 A1 A2 B1 B2) as [p' [Hb Hrest]].
+    exists p'. split; [exact Hb|].
+    cbn [map somes]. unfold si1, so1 in Hrest. rewrite <- !app_assoc in Hrest.
+    assert (E1 : forall (x : option N) t, somes [x] ++ somes t = somes (x :: t)).
+    { intros [x|] t; reflexivity. }
+    rewrite !E1 in Hrest. exact Hrest.
+Qed.
